@@ -25,6 +25,9 @@ def e2e(ctx):
     import tla, vcheck
     from props import tracker_common as tc2
     ctx.tlc("Cluster.tla", "Cluster_mc.cfg", workers=12, timeout=2400)
+    if not ctx.quick():
+        # two CIDs: PinUpdate and cross-CID repinning are reachable (11.5 M distinct states, ~10 min)
+        ctx.tlc("Cluster.tla", "Cluster_mc2.cfg", workers=12, timeout=3600)
     n = 12 if ctx.quick() else 150
     ctx.tlc("Cluster.tla", "Cluster_sim.cfg", count=False, workers=1, timeout=1200,
             simulate="file=e2e,num=%d" % n, depth=40, seed=ctx.seed * 17 + 5)
